@@ -22,6 +22,7 @@ import (
 	"go.minekube.com/brigodier"
 	"go.minekube.com/common/minecraft/component"
 	"go.minekube.com/common/minecraft/key"
+	"go.minekube.com/gate/pkg/edition/java/proto/packet"
 	"pgregory.net/rapid"
 
 	"go.minekube.com/gate/pkg/edition/java/proto/packet/chat"
@@ -837,6 +838,18 @@ func c04Run(c c04Case) verifkit.Result {
 		return fail(c04ClassifyKey(env, p, "reencode-mismatch:"+tn), "re-encoding differs at byte %d (%d vs %d bytes): ...%x vs ...%x", i, len(a), len(b), c04Head(am[i:]), c04Head(bm[i:]))
 	}
 
+	// command trees: the decoded graph must have the structure of the original one
+	// (an encoder that drops or re-targets nodes yields an encoding that is stable
+	// under further decode/encode, so the byte comparison above cannot see it)
+	if pa, ok := p.(*packet.AvailableCommands); ok {
+		if qa, ok := q.(*packet.AvailableCommands); ok && pa.RootNode != nil && qa.RootNode != nil {
+			want, got := c04TreeCanon(pa.RootNode), c04TreeCanon(qa.RootNode)
+			if want != got {
+				return fail("value:AvailableCommands.tree", "decoded command tree differs from the original:\n original %s\n decoded  %s", want, got)
+			}
+		}
+	}
+
 	// value preservation: every leaf whose perturbation changes the encoding is on the
 	// wire in this version/direction and must come back with the same value
 	pv, qv := reflect.ValueOf(p).Elem(), reflect.ValueOf(q).Elem()
@@ -1136,4 +1149,57 @@ func TestVerif_C04(t *testing.T) {
 		entropy := c04EntropyGen.Draw(rt, "entropy")
 		return c04CaseOf(combo, entropy, rapid.Bool().Draw(rt, "wide"))
 	}, c04Run)
+}
+
+// c04TreeCanon renders a brigodier tree canonically: node kind, name, executable
+// flag, children sorted by name, and for a redirect the canonical form of its
+// target (by reference once a node was already rendered on the current path).
+func c04TreeCanon(root brigodier.CommandNode) string {
+	var sb strings.Builder
+	onPath := map[brigodier.CommandNode]bool{}
+	var walk func(n brigodier.CommandNode)
+	walk = func(n brigodier.CommandNode) {
+		if n == nil {
+			sb.WriteString("<nil>")
+			return
+		}
+		switch n.(type) {
+		case *brigodier.RootCommandNode:
+			sb.WriteString("root")
+		case *brigodier.LiteralCommandNode:
+			sb.WriteString("lit:" + n.Name())
+		default:
+			sb.WriteString("arg:" + n.Name())
+		}
+		if onPath[n] {
+			sb.WriteString("^") // back reference
+			return
+		}
+		onPath[n] = true
+		defer delete(onPath, n)
+		if n.Command() != nil {
+			sb.WriteString("!")
+		}
+		var names []string
+		kids := map[string]brigodier.CommandNode{}
+		n.ChildrenOrdered().Range(func(name string, c brigodier.CommandNode) bool {
+			names = append(names, name)
+			kids[name] = c
+			return true
+		})
+		sort.Strings(names)
+		sb.WriteString("(")
+		for _, name := range names {
+			walk(kids[name])
+			sb.WriteString(",")
+		}
+		sb.WriteString(")")
+		if r := n.Redirect(); r != nil {
+			sb.WriteString("->{")
+			walk(r)
+			sb.WriteString("}")
+		}
+	}
+	walk(root)
+	return sb.String()
 }
